@@ -7,6 +7,15 @@ CLAIMED = {
  'C01': (TV, 'CasADi-SX-to-SMT translation validation of each transcription against a reference RK4/Euler/update recursion (z3, QF_UFNRA, uninterpreted right-hand sides)',
          'For every enumerated configuration the real gap-closing rows, SingleShooting state recursion and integrator-grid samples are proven equal (z3 unsat on the negation) to an independent reference recursion for ALL real values of the decision vector, parameters, t0/T and for ALL right-hand sides of the given shape (uninterpreted markers). Configurations (method, intg, N, M, grid, horizon kind, model shape) are enumerated within stated bounds.',
          'CasADi graph construction + Function.expand; z3; translator self-validated against CasADi numerics on each trace; reals for floats; constants identified up to 1e-10.', '3/C01'),
+ 'C02': (TV, 'CasADi-SX-to-SMT translation validation of the collocation rows against an exact-rational Lagrange-polynomial reference (z3, QF_UFNRA)',
+         'For every enumerated (degree 1..5, radau/legendre, N, M, grid, horizon kind, ODE/DAE model) the dynamics rows of the real NLP are put in bijection (solver-confirmed equality for all real values, all right-hand sides of the shape) with defect / algebraic / continuity residuals of the Lagrange interpolant; collocation times proven equal to t_start+tau_j*h; no other row touches model variables.',
+         'As C01; Lagrange tables are exact rationals of CasADi collocation_points doubles; irrational tables only with symbolic horizon.', '3/C02'),
+ 'C04': (TV, 'complete NLP row multiset vs reference placement semantics, each pairing confirmed by z3 (QF_UFNRA), leftovers restricted to time-grid variables',
+         'For every enumerated constraint set/method/grid the COMPLETE multiset of NLP rows (bounds and sense included) is in bijection with: reference instances of every declared constraint (per grid point, include_first/last, offsets, final-node conventions) + dynamics rows + T>=0; equality of each pair holds for all real values and all constraint bodies of the shape (uninterpreted markers); rejection of unplaceable constraints; Jacobian row count.',
+         'As C01; time-grid rows are only required not to touch model variables (their content is C06).', '3/C04'),
+ 'C05': (TV, 'opti.f proven equal (z3 unsat of the negation, QF_UFNRA) to the reference sum of Mayer/sum/left-Riemann/scheme-quadrature terms',
+         'For every enumerated objective composition/method/grid: opti.f == reference sum for all real values of the decision vector/parameters/T/t0 and all integrands of the shape; value(ocp.objective) == opti.f.',
+         'As C01; quadrature by the scheme applied to the augmented system (shooting) / collocation weights B_j (exact rationals).', '3/C05'),
 }
 NA = {p: 'check not built yet in this round (see DESIGN.md section 3 for the plan)' for p in
       ['C02','C03','C04','C05','C06','C07','C08','C09','C10','C11','C12','C13','C14','C15','C16','C17','C18','C19']}
